@@ -151,18 +151,18 @@ func observePC(rc *runCtx, pc sarama.PartitionConsumer, trig <-chan struct{}, sy
 		select {
 		case _, ok := <-msgs:
 			if ok {
-				log("Msg")
+				log("Ev 0")
 				rc.event("msg")
 			} else {
-				log("ClosedMsgs")
+				log("Closed 0")
 				msgs = nil
 			}
 		case _, ok := <-errs:
 			if ok {
-				log("Err")
+				log("Ev 1")
 				rc.event("err")
 			} else {
-				log("ClosedErrs")
+				log("Closed 1")
 				errs = nil
 			}
 		case <-trig:
@@ -170,13 +170,13 @@ func observePC(rc *runCtx, pc sarama.PartitionConsumer, trig <-chan struct{}, sy
 			closing = true
 			closeDeadline = time.After(hangBound)
 			if !syncClose {
-				log("CallAsyncClose")
+				log("Call 0")
 				pc.AsyncClose()
 				rc.markInvoked()
 				break
 			}
 			// Close(): the application has ceased reading; Close drains the errors itself
-			log("CallClose")
+			log("Call 1")
 			closeRet = make(chan int, 1)
 			cr := closeRet
 			rc.guard(tag+".Close", func() {
@@ -193,10 +193,10 @@ func observePC(rc *runCtx, pc sarama.PartitionConsumer, trig <-chan struct{}, sy
 			rc.markInvoked()
 			select {
 			case n := <-closeRet:
-				log(fmt.Sprintf("RetClose %d", n))
+				log(fmt.Sprintf("Ret 1 %d", n))
 			case <-time.After(hangBound):
 				rc.fail("hang:pcons-close", tag+": PartitionConsumer.Close did not return within the bound")
-				log("Hang")
+				log("Ret 9 9")
 				return
 			}
 			// after Close returned both channels must be closed: messages (closed first by the feeder)
@@ -205,13 +205,13 @@ func observePC(rc *runCtx, pc sarama.PartitionConsumer, trig <-chan struct{}, sy
 				select {
 				case _, ok := <-msgs:
 					if ok {
-						log("Msg")
+						log("Ev 0")
 					} else {
-						log("ClosedMsgs")
+						log("Closed 0")
 						msgs = nil
 					}
 				default:
-					log("NotClosedMsgs")
+					log("Ret 9 9")
 					rc.fail("open-after-close:pcons-messages", tag+": Messages() not closed when Close returned")
 					msgs = nil
 				}
@@ -219,39 +219,39 @@ func observePC(rc *runCtx, pc sarama.PartitionConsumer, trig <-chan struct{}, sy
 			select {
 			case _, ok := <-errs:
 				if !ok {
-					log("ClosedErrs")
+					log("Closed 1")
 				} else {
-					log("Err")
+					log("Ev 1")
 					rc.fail("event-after-close:pcons-errors", tag+": error delivered after Close returned")
 				}
 			default:
-				log("NotClosedErrs")
+				log("Ret 9 9")
 				rc.fail("open-after-close:pcons-errors", tag+": Errors() not closed when Close returned")
 			}
 			errs = nil
 		case <-closeDeadline:
 			rc.fail("hang:pcons-channels", fmt.Sprintf("%s: channels not closed within the bound after AsyncClose (messages open=%v errors open=%v)", tag, msgs != nil, errs != nil))
-			log("Hang")
+			log("Ret 9 9")
 			return
 		case <-deadline:
 			rc.fail("hang:pcons-run", tag+": run did not finish")
-			log("Hang")
+			log("Ret 9 9")
 			return
 		}
 	}
 	// second close: harmless
 	ok := rc.call(tag+".Close2", func() {
 		pc.AsyncClose()
-		log("CallClose2")
+		log("Call 0"); log("Call 1")
 		n := 0
 		if err := pc.Close(); err != nil {
 			n = 1
 		}
-		log(fmt.Sprintf("RetClose2 %d", n))
+		log(fmt.Sprintf("Ret 1 %d", n))
 	})
 	if !ok {
 		rc.fail("hang:pcons-second-close", tag+": second Close did not return")
-		log("Hang")
+		log("Ret 9 9")
 	}
 	return
 }
@@ -300,6 +300,7 @@ func runPCons(spec Spec) Result {
 		}
 		pcs = append(pcs, pc)
 	}
+	rc.arm()
 	rc.startSettle(settle)
 
 	var wg sync.WaitGroup
@@ -335,13 +336,9 @@ func runPCons(spec Spec) Result {
 		rc.fail("close-error:consumer", fmt.Sprintf("Consumer.Close returned %v", cerr))
 	}
 	for i := range pcs {
-		res.Comps = append(res.Comps, CompObs{Comp: "pcons", Cfg: pcCfg(spec, i), Obs: obs[i]})
+		res.Comps = append(res.Comps, CompObs{Comp: "pcons", Cfg: pcCfg(spec, i), Obs: obs[i], Complete: true})
 	}
-	res.Events = int(atomic.LoadInt32(&rc.events))
-	res.ClosedAt = int(atomic.LoadInt32(&rc.closedAt))
-	res.Failures = rc.fails
-	res.Notes = append(rc.notes, fmt.Sprintf("requests=%v", rc.reqLog))
-	res.Millis = time.Since(rc.t0).Milliseconds()
+	res.finish(rc)
 	return res
 }
 
